@@ -486,7 +486,26 @@ func (c *Ctx) nilResultUse(rule string) {
 						continue
 					}
 					n++
-					looked := HasFact(FactsAtInstr(ref), func(f Fact) bool { return mentionsValue(f.Cond, errV, 0) })
+					// "looked at" in a way that can tell the value is there: the error was
+					// found nil, or found equal to one particular sentinel (a contract of its
+					// own: errNoTOTPEnabled comes with the user); a bare "some error" does
+					// not, it is exactly the case in which the value is nil
+					looked := HasFact(FactsAtInstr(ref), func(f Fact) bool {
+						if !mentionsValue(f.Cond, errV, 0) {
+							return false
+						}
+						rel := f.Rel()
+						if rel.X == errV && IsNilConst(rel.Y) {
+							return rel.Op == token.EQL
+						}
+						if rel.Y == errV && IsNilConst(rel.X) {
+							return rel.Op == token.EQL
+						}
+						if rel.Op == token.NEQ && (rel.X == errV || rel.Y == errV) {
+							return false // different from one sentinel: still any other error
+						}
+						return true
+					})
 					r.Check(looked, rule, FuncName(fn), use+" result #"+strconv.Itoa(i)+" of "+Callee(call), posf(c, ref), "behind a test of the call's error", FuncName(fn)+" "+use+" what "+Callee(call)+" returned before any branch has looked at the error returned with it: when the call fails the value is nil and the request ends in a panic instead of an error outcome")
 				}
 			}
@@ -547,4 +566,204 @@ func (c *Ctx) loginLooksUpFirst(rule string) {
 			r.Ok(rule, hn, "Load ≺ every answer", c.P.Pos(fn.Pos()), "every non-error answer follows the storage look-up")
 		}
 	}
+}
+
+// configVerbatim: the thresholds an application configures are used as
+// configured. The library writes them in (*Config).Defaults only, and a value
+// read from one of them is never merged with a substitute chosen by the
+// library ("zero means the default", "at most …"): a clamp changes what a
+// legitimate setting means (LockAfter = 1 no longer locks at the first
+// failure; ExpireAfter <= 0 no longer expires every session at once).
+func (c *Ctx) configVerbatim(rule string, fields ...string) {
+	r := c.R
+	want := map[string]bool{}
+	for _, f := range fields {
+		want[f] = true
+	}
+	n := 0
+	for _, fn := range c.P.Funcs {
+		if strings.HasSuffix(pkgOf(fn), "/mocks") {
+			continue
+		}
+		name := FuncName(fn)
+		for _, b := range fn.Blocks {
+			for _, in := range b.Instrs {
+				switch x := in.(type) {
+				case *ssa.Store:
+					fa, ok := x.Addr.(*ssa.FieldAddr)
+					if !ok || !want[fieldName(fa)] || !strings.Contains(fa.X.Type().String(), "struct{BCryptCost") {
+						continue
+					}
+					if name == "(*ab.Config).Defaults" {
+						continue
+					}
+					r.Bad(rule, name, "write of Modules."+fieldName(fa), posf(c, x), "the library overwrites the configured "+fieldName(fa)+" outside Config.Defaults: a value the application chose is replaced")
+				case *ssa.UnOp:
+					if x.Op != token.MUL {
+						continue
+					}
+					fa, ok := x.X.(*ssa.FieldAddr)
+					if !ok || !want[fieldName(fa)] || !strings.Contains(fa.X.Type().String(), "struct{BCryptCost") || x.Referrers() == nil {
+						continue
+					}
+					n++
+					bad := false
+					for _, ref := range *x.Referrers() {
+						phi, isPhi := ref.(*ssa.Phi)
+						if !isPhi {
+							continue
+						}
+						for _, e := range phi.Edges {
+							if _, isK := e.(*ssa.Const); isK {
+								bad = true
+							}
+						}
+					}
+					r.Check(!bad, rule, name, "use of Modules."+fieldName(fa), posf(c, x), "used as configured", "the configured "+fieldName(fa)+" is replaced by a constant under some condition (a default or a clamp applied where it is used): settings the condition covers no longer mean what they say")
+				}
+			}
+		}
+	}
+	r.Check(n > 0, rule, "ab", "reads of "+strings.Join(fields, ","), "-", strconv.Itoa(n)+" reads examined", "no read of the configured thresholds found")
+}
+
+// recoverStartNoOwnVerdict: once the account named in a recovery request has
+// been found, the handler ends with the same quiet answer it fakes for unknown
+// accounts, or with an error a backend handed it. An error the handler makes
+// up itself from what it sees in the account (no usable address, already
+// pending, …) is an answer only existing accounts can get.
+func (c *Ctx) recoverStartNoOwnVerdict(rule string) {
+	r := c.R
+	fn := c.P.FuncOpt("(*ab/recover.Recover).StartPost")
+	if fn == nil {
+		return
+	}
+	loads := CallsTo(fn, fnLoad)
+	if len(loads) == 0 {
+		r.Unknown(rule, FuncName(fn), "Load", "-", "no account look-up found in StartPost")
+		return
+	}
+	isCtor := func(v ssa.Value) bool {
+		call, _ := CallOf(v)
+		if call == nil {
+			return false
+		}
+		n := Callee(call)
+		return n == "errors.New" || n == "fmt.Errorf" || strings.HasSuffix(n, "/errors.New") || strings.HasSuffix(n, "/errors.Errorf")
+	}
+	var made func(v ssa.Value, d int) bool
+	made = func(v ssa.Value, d int) bool {
+		if d > 5 {
+			return false
+		}
+		if phi, ok := v.(*ssa.Phi); ok {
+			for _, e := range phi.Edges {
+				if made(e, d+1) {
+					return true
+				}
+			}
+			return false
+		}
+		return isCtor(v)
+	}
+	bad := false
+	for _, b := range fn.Blocks {
+		for _, in := range b.Instrs {
+			ret, ok := in.(*ssa.Return)
+			if !ok || len(ret.Results) == 0 {
+				continue
+			}
+			after := false
+			for _, ld := range loads {
+				if InstrDominates(ld.(ssa.Instruction), ret) {
+					after = true
+				}
+			}
+			if after && made(ret.Results[len(ret.Results)-1], 0) {
+				bad = true
+				r.Bad(rule, FuncName(fn), "own error after the look-up", posf(c, ret), "after the account was found the handler can end with an error of its own making: that answer (an error page instead of the quiet redirect) is given for existing accounts only and reveals that the account exists")
+			}
+		}
+	}
+	if !bad {
+		r.Ok(rule, FuncName(fn), "own error after the look-up", c.P.Pos(fn.Pos()), "after the look-up only backend errors or the quiet answer")
+	}
+}
+
+// noCredentialRestore: a list of one-time values (recovery codes, one-time
+// passwords) put back into the user is a list computed by consuming, clearing
+// or regenerating — never the stored list as it was read (kept aside to be
+// "handed back" when the request fails later): that makes a spent value
+// acceptable again.
+func (c *Ctx) noCredentialRestore(rule string) {
+	r := c.R
+	pairs := map[string]string{"PutRecoveryCodes": "GetRecoveryCodes", "PutOTPs": "GetOTPs"}
+	n := 0
+	for _, fn := range c.P.Funcs {
+		if strings.HasSuffix(pkgOf(fn), "/mocks") {
+			continue
+		}
+		for _, call := range Calls(fn) {
+			cc := call.Common()
+			if !cc.IsInvoke() || pairs[cc.Method.Name()] == "" || !c.isUserType(cc.Value.Type()) || len(cc.Args) != 1 {
+				continue
+			}
+			n++
+			getter := pairs[cc.Method.Name()]
+			seen := map[ssa.Value]bool{}
+			var asRead func(v ssa.Value, d int) bool
+			asRead = func(v ssa.Value, d int) bool {
+				v = stripConv(v)
+				if v == nil || d > 8 || seen[v] {
+					return false
+				}
+				seen[v] = true
+				switch x := v.(type) {
+				case *ssa.Call:
+					return x.Call.IsInvoke() && x.Call.Method.Name() == getter
+				case *ssa.Phi:
+					for _, e := range x.Edges {
+						if asRead(e, d+1) {
+							return true
+						}
+					}
+				case *ssa.FreeVar:
+					// what the enclosing function bound
+					cl := x.Parent()
+					idx := -1
+					for i, fv := range cl.FreeVars {
+						if fv == x {
+							idx = i
+						}
+					}
+					if par := cl.Parent(); par != nil && idx >= 0 {
+						for _, b := range par.Blocks {
+							for _, in := range b.Instrs {
+								if mc, ok := in.(*ssa.MakeClosure); ok && mc.Fn == ssa.Value(cl) && idx < len(mc.Bindings) && asRead(mc.Bindings[idx], d+1) {
+									return true
+								}
+							}
+						}
+					}
+				case *ssa.UnOp:
+					if x.Op == token.MUL {
+						if asRead(x.X, d+1) {
+							return true
+						}
+					}
+				case *ssa.Alloc:
+					if x.Referrers() != nil {
+						for _, ref := range *x.Referrers() {
+							if st, ok := ref.(*ssa.Store); ok && st.Addr == ssa.Value(x) && asRead(st.Val, d+1) {
+								return true
+							}
+						}
+					}
+				}
+				return false
+			}
+			r.Check(!asRead(cc.Args[0], 0), rule, FuncName(fn), cc.Method.Name()+"(<list as read>)", posf(c, call.(ssa.Instruction)), "a computed list", "the list put back is the stored list exactly as "+getter+"() returned it (kept aside and restored): values consumed in between become acceptable again")
+		}
+	}
+	r.Extra["credential_list_puts"] = n
 }
